@@ -74,9 +74,10 @@ func staleIndexRule(p *core.Prog, r *core.Report, rule string) {
 		return
 	}
 	writers := reachers(p, map[*ssa.Function]bool{wr: true})
+	rds := roleSet(p, ocidirRel, "OCIDir", "readIndex")
 	n := 0
 	for _, fn := range pkgFuncs(p, ocidirRel) {
-		if fn == wr || fn == rd {
+		if fn == wr || rds[fn] {
 			continue
 		}
 		var reads, writes []*ssa.Call
@@ -85,10 +86,10 @@ func staleIndexRule(p *core.Prog, r *core.Report, rule string) {
 			if !ok {
 				return
 			}
-			switch core.CalleeFn(c) {
-			case rd:
+			switch g := core.CalleeFn(c); {
+			case g != nil && rds[g]:
 				reads = append(reads, call)
-			case wr:
+			case g == wr:
 				writes = append(writes, call)
 			}
 		})
@@ -100,7 +101,7 @@ func staleIndexRule(p *core.Prog, r *core.Report, rule string) {
 			// the read(s) this write's index comes from
 			var from []*ssa.Call
 			for _, o := range core.Origins(core.CallArg(w, 2), core.SliceOpts{FieldsThrough: true}) {
-				if o.Kind == core.OCall && core.CalleeFn(o.Call) == rd {
+				if o.Kind == core.OCall && core.CalleeFn(o.Call) != nil && rds[core.CalleeFn(o.Call)] {
 					from = append(from, o.Call)
 				}
 			}
@@ -119,7 +120,9 @@ func staleIndexRule(p *core.Prog, r *core.Report, rule string) {
 					if _, isCall := in.(ssa.CallInstruction); !isCall {
 						continue
 					}
-					if g := instrRefs(p, in, writers); g != nil {
+					// only what runs before the write counts: a rewrite on a path that never reaches the
+					// write afterwards cannot be overwritten by it
+					if g := instrRefs(p, in, writers); g != nil && (core.Reach{}).FromInstr(in)[ssa.Instruction(w)] {
 						bad = fmt.Sprintf("%s is called at %s between the read at %s and this write", g.Name(), p.Pos(in.Pos()), p.Pos(rdc.Pos()))
 					}
 				}
